@@ -497,19 +497,177 @@ func c03RunAccessors(body []byte, depth int) explore.Result {
 	return res
 }
 
+// ---- declared length (every value class of the length word, truncated stream behind it) ----------
+//
+// A message header declares D bytes; what follows is a run of perfectly framed Query messages and then the end of
+// the input. As long as fewer than D-4 bytes have followed the header, every one of them belongs to THAT message:
+// none may be interpreted as a message of its own.
+
+const c03Smuggled = "smuggled"
+
+func c03DeclaredValues() []uint32 {
+	return []uint32{c03Limit + 5, 2 * c03Limit, 4095, 4096, 65535, 65536, 1 << 24, 1<<31 - 1, 1 << 31, 1<<31 + 1, 1<<31 + 24, 1<<31 + 4096, 3 << 30, 1<<32 - 2, 1<<32 - 1}
+}
+
+type c03Pos struct {
+	Name   string
+	Auth   bool
+	Before [][]byte
+}
+
+func c03Positions() []c03Pos {
+	st := pgproto.Startup("user", "u")
+	return []c03Pos{
+		{"first message of the session", false, [][]byte{st}},
+		{"after a query", false, [][]byte{st, pgproto.Query(progRows)}},
+		{"inside an extended batch", false, [][]byte{st, pgproto.Parse("s", progRows)}},
+		{"inside COPY", false, [][]byte{st, pgproto.Query("copyt")}},
+		{"inside binary COPY", false, [][]byte{st, pgproto.Query("copyb"), pgproto.CopyData(pgproto.BinaryCopyHeader())}},
+		{"while the password is awaited", true, [][]byte{st}},
+	}
+}
+
+func c03RunDeclared(pos c03Pos, t byte, declared uint32, payloadFrames int) explore.Result {
+	var res explore.Result
+	res.Outcome = "declared-length"
+	res.Key = fmt.Sprint(pos.Name, t, declared, payloadFrames)
+	frame := pgproto.Query(c03Smuggled)
+	payload := bytes.Repeat(frame, payloadFrames)
+	if uint64(len(payload)) >= uint64(declared)-4 {
+		res.Outcome = "declared-length-skipped"
+		return res // the message would be complete: other families cover that
+	}
+	hdr := append([]byte{t}, pgproto.Be32(declared)...)
+	stream := pgproto.Cat(bytes.Join(pos.Before, nil), hdr, payload)
+	o := c04RunLimit(pos.Auth, c04Feed{Stream: stream}, false, c03Limit)
+	what := fmt.Sprintf("%s: header type %q declaring %d bytes, followed by only %d bytes (%d framed Query messages) and the end of the input", pos.Name, t, declared, len(payload), payloadFrames)
+	if o.engine != "" {
+		res.Engine = o.engine
+		return res
+	}
+	if o.status != memnet.Closed {
+		res.Fail("not-closed-after-eof", fmt.Sprintf("%s: connection is %s", what, o.status))
+	}
+	for _, e := range o.events {
+		if strings.Contains(e, c03Smuggled) {
+			res.Fail("body-read-as-messages", fmt.Sprintf("%s: bytes of the declared body were interpreted as messages of their own, callbacks: %v", what, o.events))
+			break
+		}
+	}
+	res.Trans = []string{fmt.Sprintf("%s|%q declared>=2^31:%v|closed", pos.Name, t, declared >= 1<<31)}
+	return res
+}
+
+// ---- differential isolation: surplus bytes of the message that STARTS a statement ---------------
+//
+// The message that starts a statement (Query / Execute) carries surplus bytes after its last field. Whatever the
+// statement then reads from the client (a COPY stream) must be what the client sent in the following messages:
+// every callback observed with the surplus must also be observed, in the same order, without it.
+
+type c03Starter struct {
+	Name         string
+	Before       [][]byte
+	Plain, Plus  func(surplus []byte) []byte
+	FollowBinary bool
+	After        [][]byte
+}
+
+func c03Starters() []c03Starter {
+	st := pgproto.Startup("user", "u")
+	q := func(text string) func([]byte) []byte {
+		return func(sur []byte) []byte { return pgproto.Msg('Q', pgproto.Cat(pgproto.CStr(text), sur)) }
+	}
+	e := func(sur []byte) []byte { return pgproto.Msg('E', pgproto.Cat(pgproto.CStr(""), pgproto.Be32(0), sur)) }
+	ext := func(text string) [][]byte {
+		return [][]byte{st, pgproto.Parse("", text), pgproto.Bind("", "", nil, nil, nil)}
+	}
+	return []c03Starter{
+		{Name: "Query starting a binary COPY", Before: [][]byte{st}, Plus: q("copyb"), FollowBinary: true},
+		{Name: "Query starting a text COPY", Before: [][]byte{st}, Plus: q("copyt")},
+		{Name: "Execute starting a binary COPY", Before: ext("copyb"), Plus: e, FollowBinary: true, After: [][]byte{pgproto.Sync()}},
+		{Name: "Execute starting a text COPY", Before: ext("copyt"), Plus: e, After: [][]byte{pgproto.Sync()}},
+		{Name: "Query with placeholders", Before: [][]byte{st}, Plus: q("select $1")},
+	}
+}
+
+func c03SurplusContents() []sletter {
+	row := pgproto.BinaryCopyTuple([][]byte{{0, 0, 2, 154}, []byte("surplus")})
+	return []sletter{
+		{"binary COPY header + row", pgproto.Cat(pgproto.BinaryCopyHeader(), row)},
+		{"binary COPY header + row + trailer", pgproto.Cat(pgproto.BinaryCopyHeader(), row, pgproto.BinaryCopyTrailer())},
+		{"binary COPY row", row},
+		{"framed CopyData(header + row)", pgproto.CopyData(pgproto.Cat(pgproto.BinaryCopyHeader(), row))},
+		{"text line", []byte("666\tsurplus\n")},
+		{"framed CopyData(text line)", pgproto.CopyData([]byte("666\tsurplus\n"))},
+		{"framed CopyDone", pgproto.CopyDone()},
+		{"framed Query", pgproto.Query(c03Smuggled)},
+		{"one zero byte", []byte{0}},
+	}
+}
+
+func isSubsequence(a, b []string) bool {
+	j := 0
+	for _, x := range a {
+		for j < len(b) && b[j] != x {
+			j++
+		}
+		if j == len(b) {
+			return false
+		}
+		j++
+	}
+	return true
+}
+
+func c03RunStarter(s c03Starter, sur sletter, split bool) explore.Result {
+	var res explore.Result
+	res.Outcome = "starter-surplus"
+	res.Key = fmt.Sprint(s.Name, sur.Name, split)
+	var follow [][]byte
+	if s.FollowBinary {
+		bs := c04BinaryStream()
+		if split {
+			follow = [][]byte{pgproto.CopyData(bs[:25]), pgproto.CopyData(bs[25:]), pgproto.CopyDone()}
+		} else {
+			follow = [][]byte{pgproto.CopyData(bs), pgproto.CopyDone()}
+		}
+	} else {
+		follow = [][]byte{pgproto.CopyData([]byte("1\tone\n")), pgproto.CopyData([]byte("2\ttwo\n")), pgproto.CopyDone()}
+	}
+	tail := pgproto.Cat(bytes.Join(follow, nil), bytes.Join(s.After, nil), pgproto.Sync(), pgproto.Query(progRows))
+	mk := func(surplus []byte) []byte {
+		return pgproto.Cat(bytes.Join(s.Before, nil), s.Plus(surplus), tail)
+	}
+	plain := c04Run(false, c04Feed{Stream: mk(nil)}, false)
+	plus := c04Run(false, c04Feed{Stream: mk(sur.Bytes)}, false)
+	if plain.engine != "" || plus.engine != "" {
+		res.Engine = plain.engine + plus.engine
+		return res
+	}
+	what := fmt.Sprintf("%s, carrying %s (% x) after its last field", s.Name, sur.Name, sur.Bytes)
+	if plus.status != memnet.Closed {
+		res.Fail("not-closed-after-eof", fmt.Sprintf("%s: connection is %s after the input ended", what, plus.status))
+	}
+	if !isSubsequence(plus.events, plain.events) {
+		res.Fail("surplus-leaked", fmt.Sprintf("%s: callbacks\n  %v\nwithout the surplus bytes:\n  %v\n(the surplus bytes of the starting message were read as part of what followed)", what, plus.events, plain.events))
+	}
+	res.Trans = []string{fmt.Sprintf("%s|%s|closed", s.Name, sur.Name)}
+	return res
+}
+
 func init() {
 	explore.Register(&explore.Check{
 		ID:          "C03",
 		Level:       "model_checking",
 		Technique:   "exhaustive enumeration of cut positions (deviation = one cut) over a corpus of client byte streams on a real server (differential against the un-cut delivery), of surplus-carrying messages followed by a probe, and explicit-state enumeration of message bodies x accessor sequences on buffer.Reader against an independent cursor model",
-		Rule:        "segmentation: streams = startup + every history of <= 3 letters over 12 letters (incl. surplus-carrying, oversized, COPY, truncated); read sizes 1/2/3, every single cut, every double cut (all pairs for streams <= 64 bytes, else within +-6 bytes of a message boundary), thorough: triple cuts inside every header; isolation: 12 surplus variants x prefixes of <= 1 letter; accessors: all bodies of length <= 5 over {00,01,'a',FF} x all accessor sequences of length <= 4 (thorough 5) over 8 accessors",
+		Rule:        "segmentation: streams = startup + every history of <= 3 letters over 12 letters (incl. surplus-carrying, oversized, COPY, truncated); read sizes 1/2/3, every single cut, every double cut (all pairs for streams <= 64 bytes, else within +-6 bytes of a message boundary), thorough: triple cuts inside every header; isolation: 16 surplus variants x prefixes of <= 1 letter; declared length: 6 positions (first, after a query, in a batch, in text / binary COPY, awaiting the password) x 15 message types x 15 declared lengths (limit+5 ... 2^31-1, 2^31, 2^31+24, 2^32-1) x {0,1,40} framed queries behind the header then EOF; starter surplus: 5 statement-starting messages (Query / Execute starting text / binary COPY) x 9 surplus contents, callbacks compared with the surplus-free run; accessors: all bodies of length <= 5 over {00,01,'a',FF} x all accessor sequences of length <= 4 (thorough 5) over 8 accessors",
 		Assumptions: []string{"accessor results after the first error and negative sizes are outside the quantifier", "a surplus-carrying message may be rejected by closing the connection (nothing can leak then)"},
 		Enumerate:   c03Enumerate,
 		Bounds: func(tier string) map[string]any {
 			a, b := c03Depths(tier)
 			return map[string]any{"history_depth_single_cut": a, "history_depth_double_cut": b, "accessor_sequence_length": c03AccDepth(tier), "body_length": 5}
 		},
-		RequiredOutcomes: []string{"segmentation", "isolation", "accessors"},
+		RequiredOutcomes: []string{"segmentation", "isolation", "accessors", "declared-length", "starter-surplus"},
 	})
 }
 
@@ -540,6 +698,36 @@ func c03Enumerate(tier string, emit explore.Emit) {
 					return map[string]any{"prefix": names, "surplus_message": sp.Name}
 				},
 				Run: func() explore.Result { return c03RunIsolation(p, sp) }})
+		}
+	}
+	for _, pos := range c03Positions() {
+		for _, t := range []byte{'Q', 'P', 'B', 'E', 'D', 'C', 'S', 'H', 'd', 'c', 'f', 'X', 'p', 'z', 0} {
+			for _, d := range c03DeclaredValues() {
+				for _, frames := range []int{0, 1, 2, 40} {
+					if tier != "thorough" && frames == 2 {
+						continue
+					}
+					pos, t, d, frames := pos, t, d, frames
+					emit(explore.Case{Family: "declared-length", Size: frames,
+						Desc: func() any {
+							return map[string]any{"position": pos.Name, "type": string(t), "declared_length": d, "framed_queries_following": frames}
+						},
+						Run: func() explore.Result { return c03RunDeclared(pos, t, d, frames) }})
+				}
+			}
+		}
+	}
+	for _, st := range c03Starters() {
+		for _, sur := range c03SurplusContents() {
+			for _, split := range []bool{false, true} {
+				if split && !st.FollowBinary {
+					continue
+				}
+				st, sur, split := st, sur, split
+				emit(explore.Case{Family: "starter-surplus", Size: len(sur.Bytes),
+					Desc: func() any { return map[string]any{"starter": st.Name, "surplus": sur.Name, "copy_data_split": split} },
+					Run:  func() explore.Result { return c03RunStarter(st, sur, split) }})
+			}
 		}
 	}
 	alphabet := []byte{0x00, 0x01, 'a', 0xFF}
